@@ -344,3 +344,37 @@ def inline_call(fn, call, ev, ev_factory=None):
         if isinstance(st, ast.Assign):
             sub.env[st.targets[0].id] = sub.ev(st.value)
     return sub.ev(body_ret)
+
+
+def cmp_struct(ev, test):
+    """For a simple comparison `a OP b` return (Term a-b, OP-symbol) with the canonical
+    orientation used by Evaluator.cond; None for anything else."""
+    if isinstance(test, ast.Compare) and len(test.ops) == 1:
+        a, b = ev.ev(test.left), ev.ev(test.comparators[0])
+        sym = {ast.Lt: "<", ast.LtE: "<=", ast.Gt: ">", ast.GtE: ">=", ast.Eq: "==", ast.NotEq: "!="}.get(type(test.ops[0]))
+        if sym is None:
+            return None
+        return (a - b, sym)
+    return None
+
+
+def holds_at(d, sym, **vals):
+    """truth of `d sym 0` when the atoms of d are replaced by the given numbers (None if other atoms remain)"""
+    t = d.subst({k: Term.const(v) for k, v in vals.items()})
+    if not t.is_const():
+        return None
+    v = t.value()
+    return {"<": v < 0, "<=": v <= 0, ">": v > 0, ">=": v >= 0, "==": v == 0, "!=": v != 0}[sym]
+
+
+NEG = {"<": ">=", "<=": ">", ">": "<=", ">=": "<", "==": "!=", "!=": "=="}
+FLIP = {"<": ">", "<=": ">=", ">": "<", ">=": "<=", "==": "==", "!=": "!="}
+
+
+def same_cmp(c1, c2):
+    """(d1, op1) equivalent to (d2, op2) as a constraint over the reals/integers (syntactic:
+    identical, or negated difference with flipped operator)."""
+    if c1 is None or c2 is None:
+        return False
+    (d1, o1), (d2, o2) = c1, c2
+    return (d1 == d2 and o1 == o2) or (d1 == -d2 and o1 == FLIP[o2])
